@@ -116,13 +116,13 @@ Section Sound.
 Variable sh : shape.
 Variable I : dimg.
 Let p := pln_of sh I.
-Hypothesis Hwf : img_wf sh I = true.
+Hypothesis Hwf : img_wf0 sh I = true.
 Hypothesis Hrun : ist I OPlan = Running.
 Hypothesis Hres : resumable_ok p = true.
 
 Lemma wf_block b bs : block_of sh b = Some bs -> block_wf I b bs = true.
 Proof.
-  intro Hb. unfold img_wf in Hwf. apply andb_true_iff in Hwf as [H _].
+  intro Hb. pose proof Hwf as H. unfold img_wf0 in H.
   rewrite forallb_forall in H. apply (H (b, bs)).
   apply nth_error_In with (n := b). rewrite nth_indexed. unfold block_of in Hb. now rewrite Hb.
 Qed.
@@ -275,10 +275,11 @@ Qed.
 
 (* ---- rs_seq ---- *)
 Lemma sound_seq fl b q :
+  is_terminal (pln_st sh I fl) = false ->
   seq_of sh b q <> None -> is_terminal (blk_st sh I fl b) = false -> ~ In (b, q) (resumed sh I) ->
   ~ cf (seq_st0 sh I b q) -> open_from sh I b q 0.
 Proof.
-  intros Hq Hnt Hnr Hncf. unfold seq_of in Hq. destruct (block_of sh b) as [bs|] eqn:Hb; [|contradiction].
+  intros Hpl Hq Hnt Hnr Hncf. unfold seq_of in Hq. destruct (block_of sh b) as [bs|] eqn:Hb; [|contradiction].
   destruct (nth_error (bs_seqs bs) q) as [rs|] eqn:Hqs; [|contradiction].
   set (blk := blk_of sh I b bs). set (s := seq_of_img sh I b q rs).
   assert (Hbs : ist I (OBlock b) <> Stopped).
@@ -289,15 +290,10 @@ Proof.
     pose proof (wf_seq _ _ _ _ Hb Hqs) as Hw. unfold seq_wf in Hw. apply andb_true_iff in Hw as [Hw _].
     apply andb_true_iff in Hw as [_ Hw]. rewrite E in Hw. simpl in Hw. now apply status_eqb_eq. }
   destruct (plan_early sh I) eqn:He.
-  - (* fixPlan returned before the loop: the block is as in the image, and it is not Running *)
-    destruct (early_blk fl b bs Hb He) as [Hg _].
-    unfold blk_st, pl_cell in Hnt. fold p in Hnt. rewrite Hg in Hnt. simpl in Hnt.
-    unfold img_wf in Hwf. apply andb_true_iff in Hwf as [_ H6]. rewrite He in H6. simpl in H6.
-    rewrite forallb_forall in H6.
-    assert (Hin : In (b, bs) (indexed (sh_blocks sh))).
-    { apply nth_error_In with (n := b). rewrite nth_indexed. unfold block_of in Hb. now rewrite Hb. }
-    specialize (H6 _ Hin). simpl in H6.
-    apply Hns. destruct (ist I (OBlock b)); try discriminate; try reflexivity; try contradiction.
+  - (* fixPlan returned before the loop: the plan is Completed / Failed, Recovery goes to End *)
+    exfalso. rewrite <- early_iff in He.
+    pose proof (FF.fix_plan_early_terminal (oracle fl) p p_running He) as Ht.
+    unfold pln_st, pl_cell in Hpl. fold p in Hpl. unfold fixed in Hpl. simpl in Hpl. rewrite Ht in Hpl. discriminate.
   - pose proof (fixed_blk fl b bs Hb He) as Hg. pose proof (fixed_blk [] b bs Hb He) as Hg0.
     unfold blk_st, pl_cell in Hnt. fold p in Hnt. rewrite Hg in Hnt. simpl in Hnt.
     destruct (status_eqb (F.bk_st blk) Running) eqn:Er.
